@@ -440,6 +440,9 @@ pub struct BInfo {
     pub exact_multiple: bool,
     /// an interrupt request raised by the program's last instruction is pending when PC reaches the exit address
     pub irq_pending_at_exit: bool,
+    /// instructions that cross a sync threshold *and* complete one of the run loop's 1 ms pacing periods (20,000
+    /// states counted from the previous period's end): two events of the loop's bookkeeping due at one instruction
+    pub pace_coincidences: u32,
 }
 
 /// (B) the accounting of the statement, re-implemented on top of single steps (hooks), in lockstep with
@@ -470,6 +473,7 @@ pub fn run_b(g: &Guest, tag: &str, max_steps: u64) -> Result<(Machine, Final, BI
     let mut steps = 0u64;
     let mut syncs = 0usize;
     let mut last_charge = 0u64;
+    let (mut pace, mut pace_coincidences) = (0u64, 0u32);
     let mut sync_on_last = false;
     loop {
         if steps >= max_steps {
@@ -553,10 +557,18 @@ pub fn run_b(g: &Guest, tag: &str, max_steps: u64) -> Result<(Machine, Final, BI
         expected.extend(m.rx.try_iter());
         last_charge = state;
         sync_on_last = false;
+        pace += state;
+        let pace_period_ends = pace >= 20_000;
+        if pace_period_ends {
+            pace = 0;
+        }
         if total / SYNC > before / SYNC {
             expected.push(format!("sync:{}", total));
             syncs += 1;
             sync_on_last = true;
+            if pace_period_ends && hooks::pc(cpu) != exit {
+                pace_coincidences += 1;
+            }
         }
         let mut rest = state;
         while rest > 0 {
@@ -585,7 +597,7 @@ pub fn run_b(g: &Guest, tag: &str, max_steps: u64) -> Result<(Machine, Final, BI
     let f = Final { result, er: cpu.er, ccr: hooks::ccr(cpu), pc: hooks::pc(cpu), total, msgs: expected };
     let exact_multiple = total > 0 && total % SYNC == 0;
     let irq_pending_at_exit = f.result.is_ok() && hooks::pending_interrupts(&m.cpu) > 0 && hooks::ccr(&m.cpu) & 0x80 == 0;
-    Ok((m, f, BInfo { steps, syncs, last_charge, sync_on_last, exact_multiple, irq_pending_at_exit }))
+    Ok((m, f, BInfo { steps, syncs, last_charge, sync_on_last, exact_multiple, irq_pending_at_exit, pace_coincidences }))
 }
 
 /// Tune the tail so that (variant 0) the program's last instruction is the one that crosses a sync
@@ -730,6 +742,106 @@ pub fn tuned_heavy_guest(raw: &[u32], tag: &str) -> Option<Guest> {
         }
     }
     None
+}
+
+/// Variant 4: a count-down loop whose body (a x INC.B, b x MULXU.B, DEC.L, BNE) is chosen so that - by the run loop's
+/// own bookkeeping rule, simulated here over the measured charges - some instruction both crosses a sync threshold and
+/// completes one of the loop's 1 ms pacing periods (20,000 states counted from the end of the previous period). The
+/// statement relates nothing to pacing: the sync message is due at that instruction all the same, with that total,
+/// before anything the next instruction emits. The simulation only steers the generator; the oracle stays the
+/// stepped accounting. (With bodies of 100-500 states the periods drift against the thresholds by a few thousand
+/// states per threshold, so the first coincidence typically comes after 5-15 thresholds: found by search.)
+fn paced_program(a: u32, b: u32, n: u32, extra_mov: bool) -> Guest {
+    let mut c: Vec<u8> = vec![];
+    if extra_mov {
+        emit(&mut c, Insn::MovImm { sz: Sz::L, imm: 0x1234, d: 5 });
+    }
+    emit(&mut c, Insn::MovImm { sz: Sz::L, imm: n, d: 3 });
+    let top = c.len();
+    for _ in 0..a {
+        emit(&mut c, Insn::Un { op: UnOp::Inc1, sz: Sz::B, d: 12 });
+    }
+    for _ in 0..b {
+        emit(&mut c, Insn::Mulxu { sz: Sz::B, s: 1, d: 2 });
+    }
+    emit(&mut c, Insn::Un { op: UnOp::Dec1, sz: Sz::L, d: 3 });
+    let disp = top as i32 - (c.len() as i32 + 2);
+    emit(&mut c, Insn::Bcc { cond: 6, disp, wide: false });
+    emit(&mut c, Insn::MovImm { sz: Sz::L, imm: 0, d: 0 });
+    let exit = c.len() as u32 + 4;
+    emit(&mut c, Insn::Jmp(JTarget::Abs(BASE + exit)));
+    c.resize(0x200, 0);
+    let file = simple_elf(&c, 0x1000, 0x400, exit);
+    Guest { file, args: String::new(), fails: false, features: vec!["pacing-period end and sync threshold on one instruction"], start_total: 0 }
+}
+
+pub fn paced_guest(raw: &[u32], tag: &str, _attempts: u32) -> Option<Guest> {
+    let total = |a: u32, b: u32, n: u32, x: bool| -> Option<u64> {
+        let (_, f, _) = run_b(&paced_program(a, b, n, x), tag, 100_000).ok()?;
+        f.result.ok().map(|_| f.total)
+    };
+    let t0 = total(0, 0, 1, false)?;
+    let inc = total(1, 0, 1, false)?.checked_sub(t0)?;
+    let mul = total(0, 1, 1, false)?.checked_sub(t0)?;
+    let mov = total(0, 0, 1, true)?.checked_sub(t0)?;
+    let dec_bne = total(0, 0, 2, false)?.checked_sub(t0)?;
+    let dec = inc; // both are one-word instructions without internal cycles
+    let bne = dec_bne.checked_sub(dec)?;
+    if inc == 0 || mul == 0 || mov == 0 || bne == 0 {
+        return None;
+    }
+    // simulate the run loop's two counters over the loop; first threshold (<= 14) at which they coincide
+    let first_hit = |a: u32, b: u32| -> Option<u64> {
+        let body: Vec<u64> = std::iter::repeat(inc).take(a as usize).chain(std::iter::repeat(mul).take(b as usize)).chain([dec, bne]).collect();
+        let (mut tot, mut pace) = (mov, mov);
+        loop {
+            for &s in &body {
+                let before = tot;
+                tot += s;
+                pace += s;
+                let ends = pace >= 20_000;
+                if ends {
+                    pace = 0;
+                }
+                if tot / SYNC > before / SYNC {
+                    if ends {
+                        return Some(tot / SYNC);
+                    }
+                    if tot / SYNC >= 14 {
+                        return None;
+                    }
+                }
+            }
+        }
+    };
+    let mut hits: Vec<(u32, u32, u64)> = vec![];
+    for a in 0..7u32 {
+        for b in 0..9u32 {
+            if let Some(k) = first_hit(a, b) {
+                hits.push((a, b, k));
+            }
+        }
+    }
+    if hits.is_empty() {
+        return None;
+    }
+    hits.sort_by_key(|h| h.2);
+    hits.truncate(6);
+    let (a, b, k) = hits[raw.first().copied().unwrap_or(0) as usize % hits.len()];
+    let cost = a as u64 * inc + b as u64 * mul + dec + bne;
+    // run a little past the threshold (and past the instruction after it)
+    let n = (k * SYNC) / cost + 3 + (raw.get(1).copied().unwrap_or(0) % 40) as u64;
+    if n * (a as u64 + b as u64 + 2) > 2_900_000 {
+        return None;
+    }
+    let g = paced_program(a, b, n as u32, false);
+    // the stepped accounting must agree that the coincidence is there (it models pacing only as a counter)
+    let (_, f, info) = run_b(&g, tag, 3_000_000).ok()?;
+    if f.result.is_ok() && info.pace_coincidences > 0 {
+        Some(g)
+    } else {
+        None
+    }
 }
 
 fn same_memory(a: &Cpu, b: &Cpu) -> Option<String> {
@@ -948,7 +1060,14 @@ pub fn run(ctx: &Ctx) -> i32 {
             let tag = format!("c13-{}-{}", shard, kc.get());
             // every third case: the total is placed exactly at a sync threshold (crossed by the last
             // instruction / exact multiple / just below)
-            let g = if kc.get() % 3 == 0 {
+            let g = if kc.get() % 10 == 5 && !shrinking {
+                // one case in ten: a program in which a sync threshold and the end of a pacing period fall on the
+                // same instruction (searched for with the stepped accounting; a handful of attempts)
+                match paced_guest(raw, &format!("{}p", tag), 6) {
+                    Some(g) => g,
+                    None => build_guest(&mut Ent::new(raw)),
+                }
+            } else if kc.get() % 3 == 0 {
                 let variant = (kc.get() / 3) % 4;
                 let tuned = if variant == 3 { tuned_heavy_guest(raw, &format!("{}t", tag)) } else { tuned_guest(raw, variant, &format!("{}t", tag)) };
                 match tuned {
@@ -975,6 +1094,9 @@ pub fn run(ctx: &Ctx) -> i32 {
                         }
                         if info.exact_multiple {
                             st.class("total is an exact multiple of the sync interval");
+                        }
+                        if info.pace_coincidences > 0 {
+                            st.class("an instruction crosses a sync threshold and completes a 1 ms pacing period");
                         }
                         if info.irq_pending_at_exit {
                             st.class("an unmasked interrupt request raised by the last instruction is pending at the exit address");
@@ -1080,6 +1202,6 @@ pub fn run(ctx: &Ctx) -> i32 {
     stats.merge(real_phase(ctx, &real));
     drop(quiet);
     let _ = std::fs::remove_dir(std::env::temp_dir().join(format!("h8verif-{}", std::process::id())));
-    let rule = "cases = proptest-generated terminating guest programs (straight-line arithmetic, memory accesses, calls, counted delay loops sized to land on both sides of 1-3 sync thresholds, port direction/data writes, console output through the MES write call, timer start with an optional interrupt handler installed through set_handler, optional slow-bus prologue, optionally a failing instruction at the end) wrapped into an ELF whose ___exit is the program's end, with generated argument strings. Drivers: (A) elf::load + the real Cpu::run() in-process (real pacing left in) with all messages captured; (B) the statement's accounting re-implemented over single steps (poll, step, total += 3 x charge, sync when floor(total/2,000,000) grows, peripherals fed the same amount) in lockstep with (C) the reference model. Oracle: run() succeeds iff the program has no failing instruction and then PC == exit address; final registers, CCR, all five memory regions (incl. timer and port registers = what peripherals saw), cumulative state count and the exact message sequence (ioport/stdout/sync, order and stamps) of A equal B; a third of the programs is run again, and again while all cores are kept busy - half of those while a second thread suspends and resumes the loop over the control channel (cmd:pause / cmd:start windows with ignored lines in between, at moments the OS picks): byte-identical results. Programs also print their own argv words (MES write of the pointer found at run time), write values into unrelated on-chip I/O registers, end with a burst of 3-255 port messages (1 in 4), and 1 in 4 starts at the last sync multiple below 2^32 (state count, stamps and sync totals cross 2^32). A third of the programs get a tail solved so that the total lands exactly on / just before / just after a threshold. Phase 3: 32 (quick) / 600 (thorough) programs through the repository's real release binary (-m): exit status 0 iff no failing instruction, stdout byte stream == console text + `msg: ` lines of the in-process run (covers src/main.rs incl. the argument string). Non-trivial = total crosses >= 1 sync threshold, or emits an ioport/stdout message, or contains a failing instruction; distinct by ELF contents.";
+    let rule = "cases = proptest-generated terminating guest programs (straight-line arithmetic, memory accesses, calls, counted delay loops sized to land on both sides of 1-3 sync thresholds, port direction/data writes, console output through the MES write call, timer start with an optional interrupt handler installed through set_handler, optional slow-bus prologue, optionally a failing instruction at the end) wrapped into an ELF whose ___exit is the program's end, with generated argument strings. Drivers: (A) elf::load + the real Cpu::run() in-process (real pacing left in) with all messages captured; (B) the statement's accounting re-implemented over single steps (poll, step, total += 3 x charge, sync when floor(total/2,000,000) grows, peripherals fed the same amount) in lockstep with (C) the reference model. Oracle: run() succeeds iff the program has no failing instruction and then PC == exit address; final registers, CCR, all five memory regions (incl. timer and port registers = what peripherals saw), cumulative state count and the exact message sequence (ioport/stdout/sync, order and stamps) of A equal B; a third of the programs is run again, and again while all cores are kept busy - half of those while a second thread suspends and resumes the loop over the control channel (cmd:pause / cmd:start windows with ignored lines in between, at moments the OS picks): byte-identical results. Programs also print their own argv words (MES write of the pointer found at run time), write values into unrelated on-chip I/O registers, end with a burst of 3-255 port messages (1 in 4), and 1 in 4 starts at the last sync multiple below 2^32 (state count, stamps and sync totals cross 2^32). A third of the programs get a tail solved so that the total lands exactly on / just before / just after a threshold; one in ten is a long slow-bus program searched for (with the stepped accounting) such that one instruction both crosses a sync threshold and completes one of the loop's 1 ms pacing periods. Phase 3: 32 (quick) / 600 (thorough) programs through the repository's real release binary (-m): exit status 0 iff no failing instruction, stdout byte stream == console text + `msg: ` lines of the in-process run (covers src/main.rs incl. the argument string). Non-trivial = total crosses >= 1 sync threshold, or emits an ioport/stdout message, or contains a failing instruction; distinct by ELF contents.";
     finish(ctx, P, stats, rule, vec!["'independent of host speed' is sampled under CPU contention, not proved; no wall-clock value is ever asserted".into(), "absolute per-instruction charges are C20's subject: C13 only relates run()'s totals to the charges the steps return".into()], Map::new())
 }
